@@ -8,6 +8,8 @@
   implementation by the harness's call counters.
 -/
 import MicroHttp.ConnSpec
+import MicroHttp.Proofs.Safe
+import MicroHttp.Proofs.OneShot
 namespace MicroHttp.C03
 open MicroHttp
 variable {RL H : Type}
@@ -15,20 +17,20 @@ variable {RL H : Type}
 /-- The crate's own parameters satisfy the assumptions of the generic theorems:
     in particular `RequestLine::try_from` never panics. -/
 theorem P0_wf : P0.WF := by
-  sorry
+  exact ⟨by decide, fun l p => requestLine_no_panic' l p⟩
 
 theorem inv_new (P : Params RL H) (hP : P.WF) (L : Nat) : Inv P (Conn.new L : Conn RL H) := by
-  sorry
+  exact inv_new' P hP L
 
 /-- `try_read` on any input, in any state allowed by the invariant (including right after it
     reported an error): invariant kept, never a panic, never out of fuel. -/
 theorem tryRead_safe (P : Params RL H) (hP : P.WF) (c : Conn RL H) (hI : Inv P c) (inp : Recv) :
     Inv P (tryRead P c inp).1 ∧ ∀ p, (tryRead P c inp).2 ≠ .panic p := by
-  sorry
+  exact tryRead_safe' P hP c hI inp
 
 theorem tryWrite_inv (P : Params RL H) (c : Conn RL H) (hI : Inv P c) (w : SinkStep) :
     Inv P (tryWrite c w).1 := by
-  sorry
+  exact tryWrite_inv' P c hI w
 
 /-- the public operations of a connection -/
 inductive Op
@@ -53,14 +55,40 @@ def runOps (P : Params RL H) : Conn RL H → List Op → Conn RL H × Bool
     keeps the invariant. -/
 theorem ops_safe (P : Params RL H) (hP : P.WF) (L : Nat) (ops : List Op) :
     Inv P (runOps P (Conn.new L) ops).1 ∧ (runOps P (Conn.new L) ops).2 = false := by
-  sorry
+  have gen : ∀ (ops : List Op) (c : Conn RL H), Inv P c →
+      Inv P (runOps P c ops).1 ∧ (runOps P c ops).2 = false := by
+    intro ops
+    induction ops with
+    | nil => intro c hI; exact ⟨hI, rfl⟩
+    | cons op ops ih =>
+      intro c hI
+      have hstep : Inv P (applyOp P c op).1 ∧ (applyOp P c op).2 = false := by
+        cases op with
+        | read inp =>
+          have hs := tryRead_safe' P hP c hI inp
+          simp only [applyOp]
+          refine ⟨hs.1, ?_⟩
+          cases ho : (tryRead P c inp).2 with
+          | panic p => exact absurd ho (hs.2 p)
+          | ok => rfl
+          | closed => rfl
+          | streamErr e => rfl
+          | parseErr e => rfl
+        | write w => exact ⟨tryWrite_inv' P c hI w, rfl⟩
+        | enq r => exact ⟨enqueue_inv P c hI r, rfl⟩
+        | pop => exact ⟨popParsed_inv P c hI, rfl⟩
+        | clear => exact ⟨clearWrite_inv P c hI, rfl⟩
+      have hrec := ih (applyOp P c op).1 hstep.1
+      simp only [runOps]
+      exact ⟨hrec.1, by rw [hstep.2, hrec.2]; rfl⟩
+  exact gen ops (Conn.new L) (inv_new' P hP L)
 
 /-- The one-shot parser never panics (in particular `headers_end - CRLF_LEN` cannot underflow). -/
 theorem oneShot_no_panic (bs : List Byte) (maxLen : Option Nat) (p : Panic) :
     Request.tryFrom bs maxLen ≠ .error (.panic p) := by
-  sorry
+  exact oneShot_no_panic' bs maxLen p
 
 theorem requestLine_no_panic (l : List Byte) (p : Panic) : RequestLine.tryFrom l ≠ .error (.panic p) := by
-  sorry
+  exact requestLine_no_panic' l p
 
 end MicroHttp.C03
